@@ -92,6 +92,8 @@ def dataset_var_without_group_dim(case, clause, detail):
     dimensions it has"""
     if not case.get("dataset") or clause != "xarray:values" or not case.get("bad_vars"):
         return False
+    if case.get("bad_dim_vars"):
+        return False        # the known finding is about values (multiplicities); the variables' dimensions agree with native's
     eff = set(case.get("eff_reduce") or [])
     vd = case.get("var_dims") or {}
     return all(k in vd and (eff - set(vd[k])) for k in case["bad_vars"])
@@ -102,6 +104,17 @@ def dataset_2d_grouper_dim_order(case, clause, detail):
     return bool(case.get("dataset")) and str(case.get("grouper", "")).endswith("2d") and clause == "xarray:dims"
 
 
+def dim_without_grouper_dims(case, clause, detail):
+    """xarray_reduce with `dim=` naming only dimensions the grouper does NOT have (a plain reduction inside every group):
+    values agree with native xarray, but the dimension order (Dataset: grouped dimension first) and the coordinates kept
+    for external groupers differ from native's"""
+    dim, gd = case.get("dim"), case.get("gdims") or []
+    if not isinstance(dim, list) or set(dim) & set(gd):
+        return False
+    parts = set(str(clause).replace("xarray:", "").split("+"))
+    return bool(parts) and parts <= {"dims", "coords"}
+
+
 def uint64_min_numba_chunked(case, clause, detail):
     """min/nanmin of uint64 data on chunked input with engine='numba': the intermediate fill iinfo(uint64).max cannot be
     converted by the numba kernels of numpy_groupies (OverflowError 'int too big to convert')"""
@@ -110,6 +123,7 @@ def uint64_min_numba_chunked(case, clause, detail):
 
 
 MATCHERS = {
+    "dim_without_grouper_dims": dim_without_grouper_dims,
     "uint64_min_numba_chunked": uint64_min_numba_chunked,
     "dataset_var_without_group_dim": dataset_var_without_group_dim,
     "dataset_2d_grouper_dim_order": dataset_2d_grouper_dim_order,
